@@ -63,7 +63,10 @@ def run_extract():
         if f.endswith(".lean"):
             os.remove(os.path.join(gen, f))
     rc, out = sh([EXTRACT, "-repo", "/repo", "-out", gen], env=GOENV)
-    return rc == 0, out
+    if rc != 0:
+        return False, out
+    rc, out2 = sh([EXTRACT, "-repo", "/repo", "-pkg", "tools/view", "-out", gen], env=GOENV)
+    return rc == 0, out + out2
 
 
 def lake_build(targets):
